@@ -96,6 +96,17 @@ TNext == \/ TPass \/ TReject \/ TOpen \/ TSaveOk \/ TSaveFault \/ TUpdateOk \/ T
 
 TSpec == TInit /\ [][TNext]_tvars
 
+\* Diagnosis only (C19).  No action of TdglRun lets an ill-posed problem pass the last validation phase, so TSpec
+\* rejects a trace in which the implementation did so at its `open` event ("no matching action").  TSpecFollow follows
+\* the implementation that one step further, so that TLC reports the clause that is false in the state reached
+\* (IllPosedNeverRuns) together with that state.  Acceptance of traces is always decided with TSpec.
+TPassIllPosed == Silent(/\ pc = "presolve" /\ cfg.bad # "none"
+                        /\ l <= Len(T.ev) /\ Ev.ev = "open"
+                        /\ pc' = "open"
+                        /\ UNCHANGED <<cfg, fs, serial, stage, i, t, applied, tapplied, buf, bstep, frames, wr,
+                                       cancelled, err, result, faults, simdts, tdts, flog>>)
+TSpecFollow == TInit /\ [][TNext \/ TPassIllPosed]_tvars
+
 Accepted == (l = Len(T.ev) + 1 /\ pc = "done") => PrintT(<<"ACCEPT", tid>>)
 Progress == PrintT(<<"AT", tid, l>>)
 =============================================================================
